@@ -116,16 +116,20 @@ Print Assumptions drive_is_run.
 
 (* Where the statement of the property stops being true of the machine (and of the code). *)
 
-(* The bound 2*depth+1 without the gofuel term: refuted by a Go library function that iterates over an
-   error-catching callback (known finding C11-2). *)
-Definition stops_within_depth_without_go_loops : Prop :=
-  forall σ tr σ', cstate σ -> md σ = Run -> run σ tr σ' -> attempts tr <= 2 * depth (stk σ) + 1.
-Theorem depth_bound_refuted_with_go_loops :
-  exists σ tr σ', cstate σ /\ md σ = Run /\ run σ tr σ' /\ attempts tr > 2 * depth (stk σ) + 1.
-Proof. exact depth_bound_refuted_with_go_loops_lemma. Qed.
-Print Assumptions depth_bound_refuted_with_go_loops.
+(* A Go library function that iterates over an error-catching callback (sort comparator = pcall,
+   gsub replacement table with __index = pcall, load reader ...; the former finding C11-2): Go code
+   enters a Go function only through TEntry, whose poll raises again, so whatever the library frame
+   would like to do next (any list of choices) the run is over after 2 attempts. *)
+Theorem go_library_loop_stops :
+  let s := [TLua true; TGoPcall; TEntry true; TGoPlain; TLua true] in
+  forall go, exists tr σ' e,
+    run_of_exec s 20 go = (tr, σ', e) /\ attempts tr = 2 /\ e = EndFinal (Raising ECtx).
+Proof. exact go_library_loop_stops_lemma. Qed.
+Print Assumptions go_library_loop_stops.
 
-(* reason_carried without armed_run: the host calling pcall directly gets results, not an error. *)
+(* reason_carried without armed_run: a catching frame with nothing that polls below it (pcall run by
+   the host WITHOUT the poll after a Go function, i.e. without TEntry) yields results, not an error;
+   this is what the code did before the fix that introduced TEntry. *)
 Theorem reason_not_carried_refuted :
   exists σ tr σ', cstate σ /\ md σ = Run /\ run σ tr σ' /\ final σ' /\ md σ' = Run.
 Proof. exact reason_not_carried_refuted_lemma. Qed.
